@@ -7,8 +7,10 @@ import (
 	"fmt"
 	"io"
 	"math"
+	"net"
 	"reflect"
 	"strings"
+	"syscall"
 	"time"
 
 	"github.com/jackc/pgx/v5/pgtype"
@@ -90,6 +92,10 @@ type ErrSpec struct {
 	SrcFunc    string `json:"srcfunc,omitempty"`
 	Constraint string `json:"constraint,omitempty"`
 	Order      string `json:"order,omitempty"` // letters: c s h d o(source) n(constraint) w(wrap)
+	// Wraps: the innermost error wraps a well-known sentinel of another layer
+	// (a handler that proxies to a backend whose connection broke): eof |
+	// unexpected-eof | closed-pipe | net-closed | epipe | econnreset
+	Wraps string `json:"wraps,omitempty"`
 	// Join: the error is errors.Join(this, Join...) - several causes, one failure
 	Join []*ErrSpec `json:"join,omitempty"`
 }
@@ -100,6 +106,9 @@ func (e *ErrSpec) Build() error {
 		return nil
 	}
 	var err error = errors.New(e.Msg)
+	if sent := wrappedSentinel(e.Wraps); sent != nil {
+		err = fmt.Errorf("%s: %w", e.Msg, sent)
+	}
 	order := e.Order
 	if order == "" {
 		order = "cshdon"
@@ -145,8 +154,29 @@ func (e *ErrSpec) Build() error {
 }
 
 // ExpectedMessage is the text the ErrorResponse must carry in its M field.
+func wrappedSentinel(name string) error {
+	switch name {
+	case "eof":
+		return io.EOF
+	case "unexpected-eof":
+		return io.ErrUnexpectedEOF
+	case "closed-pipe":
+		return io.ErrClosedPipe
+	case "net-closed":
+		return net.ErrClosed
+	case "epipe":
+		return syscall.EPIPE
+	case "econnreset":
+		return syscall.ECONNRESET
+	}
+	return nil
+}
+
 func (e *ErrSpec) ExpectedMessage() string {
 	msg := e.Msg
+	if sent := wrappedSentinel(e.Wraps); sent != nil {
+		msg = e.Msg + ": " + sent.Error()
+	}
 	order := e.Order
 	if order == "" {
 		order = "cshdon"
@@ -486,6 +516,7 @@ func (rt *Runtime) columns(cs []ColSpec) wire.Columns {
 // ProgramKey is the handler-program key of a query text: its first
 // space-separated token.
 func ProgramKey(query string) string {
+	query = strings.TrimLeft(query, " \t\r\n")
 	if i := strings.IndexByte(query, ' '); i >= 0 {
 		return query[:i]
 	}
